@@ -16,10 +16,12 @@ EXTENDS RsActor, Json, IOUtils
 
 Rec == ndJsonDeserialize(IOEnv.TRACE)
 
-VARIABLES l, run, st, skip
-vars == <<l, run, st, skip>>
+VARIABLES l, run, st, skip, nd     \* nd = drifts reported so far (only the first few are printed in full)
+vars == <<l, run, st, skip, nd>>
 
-Init == l = 1 /\ run = 0 /\ st = InitState /\ skip = FALSE
+Init == l = 1 /\ run = 0 /\ st = InitState /\ skip = FALSE /\ nd = 0
+
+Report(x, short) == IF nd < 25 THEN PrintT(ToString(x)) ELSE PrintT(ToString(short))
 
 \* index of the first Cmd / Reset event after position i (or Len+1)
 RECURSIVE NextBoundary(_)
@@ -54,9 +56,9 @@ Step ==
   /\ l <= Len(Rec)
   /\ LET ev == Rec[l] IN
      IF ev.e = "Reset" THEN
-          /\ st' = InitState /\ run' = ev.run /\ skip' = FALSE /\ l' = l + 1
+          /\ st' = InitState /\ run' = ev.run /\ skip' = FALSE /\ l' = l + 1 /\ nd' = nd
      ELSE IF ev.e # "Cmd" \/ skip THEN
-          /\ UNCHANGED <<st, run, skip>> /\ l' = NextBoundary(l + 1)
+          /\ UNCHANGED <<st, run, skip, nd>> /\ l' = NextBoundary(l + 1)
      ELSE
           LET nb  == NextBoundary(l + 1)
               obs == Obs(l + 1, nb - 1)
@@ -66,14 +68,14 @@ Step ==
               /\ IF en THEN
                       LET r == Do(st, cmd) IN
                       \* (the harness may go on after the model's quiesce when the code is still busy)
-                      IF SameEvs(r.evs, obs) THEN st' = [r.s EXCEPT !.q = FALSE] /\ skip' = FALSE
-                      ELSE /\ PrintT(ToString(<<"DRIFT", run, l, cmd, "model:", r.evs, "code:", obs>>))
-                           /\ skip' = TRUE /\ st' = st
+                      IF SameEvs(r.evs, obs) THEN st' = [r.s EXCEPT !.q = FALSE] /\ skip' = FALSE /\ nd' = nd
+                      ELSE /\ Report(<<"DRIFT", run, l, cmd, "model:", r.evs, "code:", obs>>, <<"DRIFT", run, l, cmd>>)
+                           /\ skip' = TRUE /\ st' = st /\ nd' = nd + 1
                  ELSE IF IsTail(ev.cmd) /\ OnlySamples(obs) THEN
                       \* the harness tried a command that cannot do anything; nothing happened
-                      st' = st /\ skip' = FALSE
-                 ELSE /\ PrintT(ToString(<<"DRIFT", run, l, cmd, "command not enabled in the model; code:", obs>>))
-                      /\ skip' = TRUE /\ st' = st
+                      st' = st /\ skip' = FALSE /\ nd' = nd
+                 ELSE /\ Report(<<"DRIFT", run, l, cmd, "command not enabled in the model; code:", obs>>, <<"DRIFT", run, l, cmd>>)
+                      /\ skip' = TRUE /\ st' = st /\ nd' = nd + 1
 
 Next == Step /\ (l' > Len(Rec) => PrintT(ToString(<<"CONFDONE", Len(Rec)>>)))
 
